@@ -480,9 +480,9 @@ def main(ctx: Ctx) -> None:
     ctx.assume("CPython 3.12 is the reference semantics (oracle)",
                "probe ids are distinct per program (the generator numbers them), see soundness_probe")
     known_stream(ctx)
-    base = model_stream(ctx, ctx.pick(120, 1500))
-    perturb_stream(ctx, base, ctx.pick(100, 1500))
-    wide_stream(ctx, ctx.pick(40, 600))
+    base = model_stream(ctx, ctx.pick(240, 2000))
+    perturb_stream(ctx, base, ctx.pick(200, 2000))
+    wide_stream(ctx, ctx.pick(60, 600))
     if not proved and not ctx.violations:
         ctx.violation("Lean development for C01 no longer builds", {"broken": ctx.broken_ties}, found_input=False)
 
